@@ -11,6 +11,8 @@ use vcore::report::Report;
 enum Ev {
     Header(usize),       // sequence index
     Cont(usize, u64),    // sequence index, fragment id (may be 0 or > n: out of range)
+    /// a header for that sequence id announcing a fragment count no sender may use (0, or beyond the assembler's limit): refused, changes nothing
+    BadHeader(usize, u64),
     Cleanup,
 }
 
@@ -43,6 +45,8 @@ struct RefSeq {
     after: BTreeSet<u64>,  // valid ids that arrived after the header (incl. header's own id)
     oob_after: bool,
     done: bool,
+    /// refused headers seen (kept in the state so that histories are explored beyond them)
+    bad_headers: BTreeSet<u64>,
 }
 impl RefSeq {
     fn touched(&self) -> bool { self.header || !self.before.is_empty() || !self.after.is_empty() || self.oob_after }
@@ -59,6 +63,7 @@ struct Scenario {
     seqs: Vec<Seq>,
     dup_budget: usize,
     bad_events: bool,
+    bad_headers: bool,
     cleanup: bool,
     timeout: Duration,
 }
@@ -79,6 +84,7 @@ fn run_history(sc: &Scenario, hist: &[Ev]) -> (FragmentAssembler, Vec<Option<Vec
         match ev {
             Ev::Header(s) => { let q = &sc.seqs[*s]; rets.push(a.start_fragment(q.id, q.n, q.cache.clone(), q.payload_of(q.n))); }
             Ev::Cont(s, id) => { let q = &sc.seqs[*s]; rets.push(a.add_fragment(q.id, *id, q.payload_of(*id))); }
+            Ev::BadHeader(s, count) => { let q = &sc.seqs[*s]; rets.push(a.start_fragment(q.id, *count, None, vec![0xBA, 0xD0])); }
             Ev::Cleanup => { last_cleanup = a.cleanup_expired(); rets.push(None); }
         }
     }
@@ -104,6 +110,7 @@ fn apply_ref(sc: &Scenario, model: &mut Vec<RefSeq>, ev: &Ev) -> Option<usize> {
             if !was && m.complete(n) && !m.done { m.done = true; return Some(*s); }
             None
         }
+        Ev::BadHeader(s, count) => { model[*s].bad_headers.insert(*count); None }
         Ev::Cleanup => None,
     }
 }
@@ -120,10 +127,12 @@ fn enabled(sc: &Scenario, model: &[RefSeq], hist: &[Ev]) -> Vec<Ev> {
         let mut cands = vec![Ev::Header(s)];
         for id in 1..q.n { cands.push(Ev::Cont(s, id)); }
         // ids outside 1..n: zero, n+1, and ids whose low 32 bits are a valid id (2^32 + 1, 2^32 + n)
+        // (one refused header per history, in the scenarios that ask for it)
+        if sc.bad_headers && m.touched() && !hist.iter().any(|e| matches!(e, Ev::BadHeader(..))) { cands.push(Ev::BadHeader(s, if q.id % 2 == 0 { 0 } else { 2_000_000 })); }
         if sc.bad_events { cands.push(Ev::Cont(s, 0)); cands.push(Ev::Cont(s, q.n + 1)); cands.push(Ev::Cont(s, (1u64 << 32) + 1)); if q.n > 1 { cands.push(Ev::Cont(s, (1u64 << 32) + q.n)); } }
         for c in cands {
             let times = hist.iter().filter(|e| **e == c).count();
-            let is_bad = matches!(&c, Ev::Cont(_, id) if *id == 0 || *id > q.n);
+            let is_bad = matches!(&c, Ev::Cont(_, id) if *id == 0 || *id > q.n) || matches!(&c, Ev::BadHeader(..));
             if times == 0 { out.push(c); } else if times == 1 && !is_bad && dups_used < sc.dup_budget { out.push(c); }
         }
     }
@@ -378,7 +387,7 @@ pub fn run(rep: &Report) -> serde_json::Value {
         for n in 1..=max_n.min(len) {
             for cut in compositions(len, n, 1) {
                 for (seq_id, timeout) in [(1u64, Duration::from_secs(3600)), (2u64, Duration::from_secs(3600))] {
-                    scenarios.push((format!("single len={} n={} cut={:?} cache={}", len, n, cut, seq_id % 2 == 1), Scenario { seqs: vec![make_seq(seq_id, &msg, &cut)], dup_budget: 1, bad_events: true, cleanup: true, timeout }));
+                    scenarios.push((format!("single len={} n={} cut={:?} cache={}", len, n, cut, seq_id % 2 == 1), Scenario { seqs: vec![make_seq(seq_id, &msg, &cut)], dup_budget: 1, bad_events: true, bad_headers: len <= 4, cleanup: true, timeout }));
                 }
             }
         }
@@ -386,10 +395,10 @@ pub fn run(rep: &Report) -> serde_json::Value {
     // cuts with an empty part, extreme sequence ids
     for cut in [vec![0usize, 3], vec![3, 0], vec![1, 0, 2]] {
         let msg = [9u8, 8, 7];
-        scenarios.push((format!("empty-part cut={:?}", cut), Scenario { seqs: vec![make_seq(u64::MAX, &msg, &cut)], dup_budget: 1, bad_events: true, cleanup: false, timeout: Duration::from_secs(3600) }));
+        scenarios.push((format!("empty-part cut={:?}", cut), Scenario { seqs: vec![make_seq(u64::MAX, &msg, &cut)], dup_budget: 1, bad_events: true, bad_headers: true, cleanup: false, timeout: Duration::from_secs(3600) }));
     }
     // everything-expired configuration
-    scenarios.push(("timeout-0".into(), Scenario { seqs: vec![make_seq(5, &[1, 2, 3], &[1, 1, 1])], dup_budget: 0, bad_events: false, cleanup: true, timeout: Duration::ZERO }));
+    scenarios.push(("timeout-0".into(), Scenario { seqs: vec![make_seq(5, &[1, 2, 3], &[1, 1, 1])], dup_budget: 0, bad_events: false, bad_headers: false, cleanup: true, timeout: Duration::ZERO }));
     // interleaved sequences
     let ids = [0u64, 1, u64::MAX, 1 << 32];
     let kmax = if thorough { 4 } else { 3 };
@@ -402,11 +411,11 @@ pub fn run(rep: &Report) -> serde_json::Value {
             cut[0] = 2;
             make_seq(ids[i], &msg, &cut)
         }).collect();
-        scenarios.push((format!("interleaved k={}", k), Scenario { seqs, dup_budget: if k == 2 { 1 } else { 0 }, bad_events: k == 2, cleanup: false, timeout: Duration::from_secs(3600) }));
+        scenarios.push((format!("interleaved k={}", k), Scenario { seqs, dup_budget: if k == 2 { 1 } else { 0 }, bad_events: k == 2, bad_headers: false, cleanup: false, timeout: Duration::from_secs(3600) }));
     }
     if thorough {
         let seqs = vec![make_seq(0, &[1, 2, 3, 4, 5], &[1, 1, 1, 1, 1]), make_seq(u64::MAX, &[7, 8, 9, 10], &[1, 1, 1, 1])];
-        scenarios.push(("interleaved 5+4".into(), Scenario { seqs, dup_budget: 1, bad_events: true, cleanup: false, timeout: Duration::from_secs(3600) }));
+        scenarios.push(("interleaved 5+4".into(), Scenario { seqs, dup_budget: 1, bad_events: true, bad_headers: false, cleanup: false, timeout: Duration::from_secs(3600) }));
     }
     let results: Vec<(String, Outcome)> = scenarios.par_iter().map(|(l, sc)| (l.clone(), explore(rep, sc, l))).collect();
     let (mut states, mut transitions, mut execs, mut depth, mut distinct) = (0, 0, 0, 0, 0);
